@@ -283,6 +283,31 @@ try:
 except Exception as ex:  # noqa
     errors.append('contrib/etc/glonax.conf cannot be parsed: %s' % ex)
 
+# ---- director thresholds and addresses
+t = src('service/director.rs')
+for nm in ('ENCODER_FRAME', 'ENCODER_BOOM', 'ENCODER_ARM', 'ENCODER_ATTACHMENT', 'INCLINOMETER'):
+    want('director_' + nm.lower(), t, r'const %s:\s*u8\s*=\s*(0x[0-9a-fA-F]+)' % nm, 'director.rs')
+want('director_rpm_low', t, r'if engine\.rpm < ([\d_]+)', 'director.rs elect_engine_state')
+want('director_rpm_high', t, r'engine\.rpm > ([\d_]+)', 'director.rs elect_engine_state')
+m = re.search(r'INCLINOMETER => \{(.*?)\n            \}', t, re.S)
+if m:
+    ths = re.findall(r'roll > ([\d\.]+)_f32\.to_radians\(\) \|\| pitch > ([\d\.]+)_f32\.to_radians\(\)', m.group(1))
+    vers = re.findall(r'return DirectorLocslState::(\w+)', m.group(1))
+    if len(ths) != 2 or len(vers) != 2 or any(a != b for a, b in ths):
+        errors.append('director.rs: inclinometer branches not in the expected shape')
+    else:
+        # branches in the code's order: (threshold in degrees, verdict)
+        for i, ((a, _), v) in enumerate(zip(ths, vers)):
+            defs.append(('director_tilt_%d_deg' % (i + 1), 'Z', '(%d)' % int(float(a)), 'director.rs inclinometer branch %d' % (i + 1)))
+            defs.append(('director_tilt_%d_emergency' % (i + 1), 'bool', 'true' if v == 'Emergency' else 'false', 'director.rs inclinometer branch %d verdict %s' % (i + 1, v)))
+else:
+    errors.append('director.rs: INCLINOMETER arm not found')
+m = re.search(r'operation:\s*DirectorOperation::(\w+)', t)
+if m:
+    defs.append(('director_supervised', 'bool', 'true' if m.group(1) == 'Supervised' else 'false', 'director.rs Director::new operation mode'))
+else:
+    errors.append('director.rs: operation mode not found')
+
 EXTRA = os.path.join(os.path.dirname(os.path.abspath(__file__)), 'rs2v_extra.py')
 if os.path.exists(EXTRA):
     exec(compile(open(EXTRA).read(), EXTRA, 'exec'))
